@@ -8,6 +8,7 @@
 From JV Require Import Sem Gen.
 From JV Require Import Hand.Text Hand.Lexopt Hand.Json Hand.Cli.
 From JV Require Import Proofs.TextProofs Proofs.LexoptProofs Proofs.CliProofs.
+Require JV.Proofs.CliCore.
 Open Scope Z_scope.
 
 (* Two command lines (without `--`: no token is "--") made of the same option tokens in the same order and the
@@ -184,3 +185,13 @@ Proof.
   eexists _, _. split; [vm_compute; reflexivity|]. split; [vm_compute; reflexivity|].
   unfold canonical_date. repeat split; try (vm_compute; congruence). 
 Qed.
+
+(* ---- C18_roundtrip with [canonical_date] discharged by the core development (Proofs/CliCore.v, from C01's round
+   trip): for every calendar the command can construct, every option set without -J and EVERY 32-bit day number *)
+Theorem C18_roundtrip_closed :
+  forall o j, reachable_cal (o_calendar o) -> o_json o = false -> in_i32 j ->
+  exists d t, Calendar_at_jdn (o_calendar o) j = Ret d /\ date_text o d = Ret t /\
+    arg_line o (show_int j) = Ret (Ok (jdn_prefix o j ++ t ++ style_mark o d)) /\
+    arg_line o t = Ret (Ok (if o_quiet o then show_int j else t ++ style_mark o d ++ codes " = JDN " ++ show_int j)).
+Proof. exact JV.Proofs.CliCore.roundtrip_text_closed. Qed.
+Print Assumptions C18_roundtrip_closed.
